@@ -5,23 +5,14 @@ import Cobweb.Proofs.Ctl
 
 namespace Cobweb
 
-theorem same_pollRemovals_aux (tys : List Nat) (acc : St × List Cmd) :
-    Same acc.1 (tys.foldl (fun (acc : St × List Cmd) ty =>
-      let s := acc.1
-      let buf := s.removedBuf ty
-      let cs := buf.flatMap (removalCmdsFor s ty)
-      ({ s with removedBuf := upd s.removedBuf ty [] }, acc.2 ++ cs)) acc).1 := by
+theorem same_pollRemovals_aux (tys : List Nat) (acc : St × List Cmd) : Same acc.1 (tys.foldl pollRemStep acc).1 := by
   induction tys generalizing acc with
   | nil => exact Same.refl _
   | cons ty tys ih => exact Same.after (ih _) ⟨rfl, rfl, rfl, rfl, rfl, rfl⟩
 
 theorem same_pollRemovals (s : St) : Same s (pollRemovals s).1 := same_pollRemovals_aux s.tracked (s, [])
 
-theorem same_pollDespawns_aux (es : List Nat) (acc : St × List Cmd) :
-    Same acc.1 (es.foldl (fun (acc : St × List Cmd) e =>
-      let s := acc.1
-      let hs := s.tblDsp e
-      ({ s with tblDsp := upd s.tblDsp e [] }, acc.2 ++ hs.map (fun h => Cmd.reactDsp e h.sys h))) acc).1 := by
+theorem same_pollDespawns_aux (es : List Nat) (acc : St × List Cmd) : Same acc.1 (es.foldl pollDspStep acc).1 := by
   induction es generalizing acc with
   | nil => exact Same.refl _
   | cons e es ih => exact Same.after (ih _) ⟨rfl, rfl, rfl, rfl, rfl, rfl⟩
